@@ -656,6 +656,181 @@ class Corners(Part):
         return "K16" if mismatch.bucket == "corners:K16" else None
 
 
+# -- chains of extensions and uses in macro bodies ---------------------------
+
+CHAIN_SLOTS = ["s", "q"]
+
+
+@st.composite
+def chain_cases(draw):
+    """A library of 2..6 literal macros m0..mK over ONE small pool of slot
+    names: plain macros (define some slots, may use an earlier macro in
+    their body, offering it fillers of their own) and extensions of earlier
+    macros (fill some slots, a filler may offer its slot again); then 1..3
+    uses by a caller, rendered 1..2 times with the same library object."""
+    macros = []
+    for k in range(draw(st.integers(2, 6))):
+        if k and draw(st.integers(0, 2)) != 0:
+            fills = {}
+            for n in CHAIN_SLOTS:
+                c = draw(st.integers(0, 3))
+                if c:
+                    fills[n] = "reoffer" if c == 3 else "plain"
+            macros.append({"kind": "ext", "base": draw(st.integers(0, k - 1)),
+                           "fills": fills})
+        else:
+            slots = [n for n in CHAIN_SLOTS if draw(st.integers(0, 2))]
+            use = None
+            if k and draw(st.booleans()):
+                use = {"macro": draw(st.integers(0, k - 1)),
+                       "fills": [n for n in CHAIN_SLOTS
+                                 if draw(st.integers(0, 3)) == 0]}
+            macros.append({"kind": "plain", "slots": slots, "use": use})
+    uses = []
+    for _ in range(draw(st.integers(1, 3))):
+        # (mostly the macros defined last: they sit on top of the others)
+        k = draw(st.integers(0, len(macros) - 1))
+        k = max(k, draw(st.integers(0, len(macros) - 1)))
+        uses.append({"macro": k,
+                     "fills": [n for n in CHAIN_SLOTS + ["zz"]
+                               if draw(st.booleans())]})
+    return {"macros": macros, "uses": uses,
+            "rounds": draw(st.integers(1, 2))}
+
+
+def chain_library(case):
+    out = ["<div>"]
+    for k, m in enumerate(case["macros"]):
+        name = "m%d" % k
+        if m["kind"] == "plain":
+            body = "[%s" % name
+            for n in m["slots"]:
+                body += '<b metal:define-slot="%s">%s-%s</b>' % (n, name, n)
+            if m["use"] is not None:
+                body += '<i metal:use-macro="macros[\'m%d\']">' % \
+                    m["use"]["macro"]
+                for n in m["use"]["fills"]:
+                    body += '<u metal:fill-slot="%s">%s-gives-%s</u>' % (
+                        n, name, n)
+                body += "</i>"
+            out.append('<p metal:define-macro="%s">%s]</p>' % (name, body))
+        else:
+            body = ""
+            for n, how in sorted(m["fills"].items()):
+                if how == "reoffer":
+                    body += ('<b metal:fill-slot="%s">%s-%s(<i metal:'
+                             'define-slot="%s">%s-re-%s</i>)</b>' % (
+                                 n, name, n, n, name, n))
+                else:
+                    body += '<b metal:fill-slot="%s">%s-%s</b>' % (
+                        n, name, n)
+            out.append('<p metal:define-macro="%s" metal:extend-macro='
+                       '"macros[\'m%d\']">%s</p>' % (name, m["base"], body))
+    out.append("</div>")
+    return "".join(out)
+
+
+def chain_caller(case):
+    out = ["<div>"]
+    for u, use in enumerate(case["uses"]):
+        out.append('<x metal:use-macro="lib.macros[\'m%d\']">' % use["macro"])
+        for n in use["fills"]:
+            out.append('<u metal:fill-slot="%s">c%d-%s</u>' % (n, u, n))
+        out.append("</x>|")
+    out.append("</div>")
+    return "".join(out)
+
+
+def chain_expand(case, k, outer):
+    """Text of macro k when the fillers ``outer`` (slot name -> text) are
+    offered to it: inlining by the book."""
+    m = case["macros"][k]
+    name = "m%d" % k
+    if m["kind"] == "plain":
+        body = "[%s" % name
+        for n in m["slots"]:
+            body += outer.get(n, "<b>%s-%s</b>" % (name, n))
+        if m["use"] is not None:
+            # only what the macro itself offers reaches a macro in its body
+            body += chain_expand(case, m["use"]["macro"], {
+                n: "<u>%s-gives-%s</u>" % (name, n)
+                for n in m["use"]["fills"]})
+        return "<p>%s]</p>" % body
+    passed = {}
+    for n in CHAIN_SLOTS:
+        how = m["fills"].get(n)
+        if how == "reoffer":
+            passed[n] = "<b>%s-%s(%s)</b>" % (name, n, outer.get(
+                n, "<i>%s-re-%s</i>" % (name, n)))
+        elif n in outer:
+            passed[n] = outer[n]
+        elif how == "plain":
+            passed[n] = "<b>%s-%s</b>" % (name, n)
+    return chain_expand(case, m["base"], passed)
+
+
+class Chains(Part):
+    """Extension chains of any length and uses inside macro bodies, all over
+    one pool of slot names: what the caller offers reaches exactly the slots
+    of the macro it uses (through every extension level), never a macro that
+    is merely used in a body; a rendering does not depend on an earlier
+    one."""
+    name = "chains"
+    examples = {"quick": 3000, "thorough": 60000}
+    floors = {"chain3": 0.1, "body_use": 0.3}
+
+    def strategy(self, tier):
+        return chain_cases()
+
+    def _depth(self, case, k):
+        m = case["macros"][k]
+        return 1 + self._depth(case, m["base"]) if m["kind"] == "ext" else 1
+
+    def labels(self, case):
+        if any(self._depth(case, u["macro"]) >= 3 for u in case["uses"]):
+            yield "chain3"
+        if any(m["kind"] == "plain" and m["use"] for m in case["macros"]):
+            yield "body_use"
+        if any(m["kind"] == "plain" and m["use"] and case["macros"][
+                m["use"]["macro"]]["kind"] == "ext" for m in case["macros"]):
+            yield "extension_in_body"
+        if case["rounds"] > 1:
+            yield "second_round"
+
+    def nontrivial(self, case):
+        return any(self._depth(case, u["macro"]) >= 2 or (
+            case["macros"][u["macro"]].get("use")) for u in case["uses"])
+
+    def sample(self, case):
+        return {"library": chain_library(case), "caller": chain_caller(case)}
+
+    def oracle(self, case):
+        from chameleon import PageTemplate
+        lib_src, src = chain_library(case), chain_caller(case)
+        exp = "<div>" + "".join(
+            chain_expand(case, use["macro"], {
+                n: "<u>c%d-%s</u>" % (u, n) for n in use["fills"]
+                if n in CHAIN_SLOTS}) + "|"
+            for u, use in enumerate(case["uses"])) + "</div>"
+        o = run(PageTemplate, lib_src)
+        if not o.ok:
+            return Mismatch("chains:library does not compile", {
+                "library": lib_src, "outcome": o.brief()})
+        lib = o.value
+        for r in range(case["rounds"]):
+            o = run(PageTemplate, src)
+            if o.ok:
+                o = run(o.value.render, lib=lib)
+            got = o.value if o.ok else "exc " + o.exc_name
+            if got != exp:
+                return Mismatch("chains:differs from the inlined text (%s)"
+                                % ("first rendering" if r == 0 else
+                                   "later rendering"),
+                                {"library": lib_src, "caller": src,
+                                 "round": r, "got": got, "expected": exp})
+        return None
+
+
 CHECK = Check(
     "C09", "exploration",
     rule=("(macro library, caller) pairs: 1..3 macros with 0..3 slots "
@@ -666,8 +841,13 @@ CHECK = Check(
           "re-offered slot, TAL statements inside bodies, defaults and "
           "fillers, probes of macro locals/globals after each use; "
           "non-trivial = a use fills some but not all slots, or a repeated "
-          "slot name, or an extension; distinct by sha1"),
-    parts=[Inline(), MacroName(), Corners()],
+          "slot name, or an extension; distinct by sha1; part chains: literal "
+          "libraries of 2..6 macros over one pool of two slot names - plain "
+          "macros that may use an earlier macro in their body, extensions of "
+          "any earlier macro (chains of any length, fillers that offer "
+          "their slot again) - 1..3 uses, 1..2 renderings with one library "
+          "object, reference = inlining by a 30-line function"),
+    parts=[Inline(), MacroName(), Corners(), Chains()],
     assumptions=[
         "macro roots, slot elements and filler roots carry no tal:repeat / "
         "replace / omit-tag / on-error themselves and start with text "
